@@ -148,6 +148,8 @@ func runC08(c *Ctx) {
 	c08Heap(c)
 	c08Round2(c)
 	c08FixedTtlKey(c)
+	cacheKeyTypeInjective(c, "KEY")
+	c08LruWriters(c)
 }
 
 func isParamAnyFunc(f *core.Func, v *types.Var) bool {
@@ -414,12 +416,28 @@ func c08Boundary(c *Ctx) {
 			if !ok || name != "Store" || len(call.Args) != 1 {
 				return
 			}
+			// only stores into fields of the clone (a local that is not the receiver)
+			if root := core.RootObj(f.Info(), r); root == nil || root.Name() == recv {
+				return
+			}
+			if !strings.Contains(core.FieldOf(f.Info(), r), "DnsCache.") {
+				return
+			}
+			// the two fields that describe the pre-packed bytes (their TTL and when they were packed)
+			// travel with those bytes: they must be copied from the source entry as they are
+			describesPacked := strings.HasSuffix(core.ExprStr(r), ".packedResponseTTL") || strings.HasSuffix(core.ExprStr(r), ".packedResponseCreatedAt")
 			inner, ok := call.Args[0].(*ast.CallExpr)
 			if !ok {
+				if describesPacked {
+					self = append(self, core.ExprStr(call)+" (describes the copied packed bytes; must be the source entry's value)")
+				}
 				return
 			}
 			ir, iname, ok := methodCall(inner)
 			if !ok || iname != "Load" {
+				if describesPacked {
+					self = append(self, core.ExprStr(call)+" (describes the copied packed bytes; must be the source entry's value)")
+				}
 				return
 			}
 			dst, src := core.ExprStr(r), core.ExprStr(ir)
